@@ -38,15 +38,38 @@ _ENC = {
 }
 
 
-def enc(c: int, f: int, x: int):
+# The model's value 2 (UVal in RenderArgs.tla) is an UNHASHABLE value: a list for f1, a dict for
+# the other fields; a NEW object at every use, so equal values are never the same object.
+UVAL = 2
+
+
+# VARIANTS: real values of another type that are == (and hash equal) to the ones above
+# (0.5 / Fraction(1, 2), 0 / False, False / 0).  `NsNew` with b = 2 builds the namespace from
+# them: an equal-but-distinct namespace whose look-alike must never be held in its place.
+from fractions import Fraction  # noqa: E402
+
+_VAR = {
+    (1, 1): (None, Fraction(1, 2)),
+    (1, 2): (False, ""),
+    (0, 1): (0, None),
+}
+
+
+def enc(c: int, f: int, x: int, variant: bool = False):
+    if x == UVAL:
+        return ["u", f] if f == 1 else {"u": f}
+    if variant and (c % 2, f) in _VAR:
+        return _VAR[(c % 2, f)][x]
     return _ENC.get((c % 2, f), (0, 1))[x]
 
 
 def dec(c: int, f: int, real):
-    pair = _ENC.get((c % 2, f), (0, 1))
-    for x in (0, 1):
-        if type(real) is type(pair[x]) and real == pair[x]:
-            return x
+    for pair in (_ENC.get((c % 2, f), (0, 1)), _VAR.get((c % 2, f), (0, 1))):
+        for x in (0, 1):
+            if type(real) is type(pair[x]) and real == pair[x]:
+                return x
+    if type(real) in (list, dict) and real == enc(c, f, UVAL):
+        return UVAL
     return ["?", repr(real)]
 
 
@@ -129,6 +152,29 @@ class Tree:
             return ["ra", c, vals]
         return ["?", -1, repr(x)]
 
+    def held(self, r, objs: dict[int, object]) -> list:
+        """Identity observation for a resulting SET `r`: per class 1..N the tokens of the live
+        objects (`objs`: id -> object, the heap BEFORE / besides the result) that r's constituent
+        for that class IS: i > 0 = the namespace object #i itself, -(16 * s + k) = the very
+        object live set #s holds for class k.  [] for a namespace result / a class not in r."""
+        from term_image.renderable import ArgsNamespace, RenderArgs
+
+        if not isinstance(r, RenderArgs):
+            return []
+        mine = {self.index[ns.get_render_cls()]: ns for ns in r}
+        out: list = [[] for _ in range(self.n)]
+        for i, x in objs.items():
+            if isinstance(x, ArgsNamespace):
+                k = self.index[x.get_render_cls()]
+                if mine.get(k) is x:
+                    out[k - 1].append(i)
+            elif isinstance(x, RenderArgs):
+                for ns in x:
+                    k = self.index[ns.get_render_cls()]
+                    if mine.get(k) is ns:
+                        out[k - 1].append(-(16 * i + k))
+        return out
+
     def getitems(self, x) -> list:
         """Outcome of x[cls] for cls = 0..N: "ok" (and it equals the iterated constituent)
         or the exception class name; [] for a namespace."""
@@ -160,7 +206,7 @@ class Tree:
             kc = self.index[objs[a].get_render_cls()]
         else:
             kc = c
-        kwargs = {f"f{f}": enc(kc, f, v) for f, v in kw}
+        kwargs = {f"f{f}": enc(kc, f, v, name == "NsNew" and b == 2) for f, v in kw}
         try:
             if name == "NsNew":
                 r = (self.sub[c] if b == 1 else self.args[c])(**kwargs)
@@ -195,39 +241,73 @@ class Tree:
         return r, []
 
 
+def _api(x, method: str) -> str:
+    from term_image.renderable import RenderArgs
+
+    return ("RenderArgs." if isinstance(x, RenderArgs) else "ArgsNamespace.") + method
+
+
 def relations(tree: Tree, live: list) -> dict:
     """==, hash and `in` over all live objects (ids are 1-based positions in `live`)."""
     from term_image.renderable import ArgsNamespace, RenderArgs
 
     n = len(live)
     eq, ne_asym, heq = [], [], []
-    hashes = [hash(x) for x in live]
+    # hash(): TypeError = "not hashable" (an observation: `uh`); any other exception = `err`
+    hashes: list = []
+    uh, err = [], []
+    for i, x in enumerate(live):
+        try:
+            hashes.append(hash(x))
+        except TypeError:
+            hashes.append(None)
+            uh.append(i + 1)
+        except Exception as e:  # noqa: BLE001
+            hashes.append(None)
+            err.append(["hash", i + 1, i + 1, type(e).__name__, _api(x, "__hash__")])
     for i in range(n):
         for j in range(i + 1, n):
-            e1 = live[i] == live[j]
-            e2 = live[j] == live[i]
-            n1 = live[i] != live[j]
+            try:
+                e1 = live[i] == live[j]
+                e2 = live[j] == live[i]
+                n1 = live[i] != live[j]
+            except Exception as e:  # noqa: BLE001 - comparing must work for every legal value
+                err.append(["==", i + 1, j + 1, type(e).__name__, _api(live[i], "__eq__")])
+                continue
             if e1 is not e2 or n1 is e1:
                 ne_asym.append([i + 1, j + 1])
             if e1:
                 eq.append([i + 1, j + 1])
-            if hashes[i] == hashes[j]:
+            if hashes[i] is not None and hashes[i] == hashes[j]:
                 heq.append([i + 1, j + 1])
     ct = []
     for i in range(n):
         if isinstance(live[i], RenderArgs):
             for j in range(n):
-                if isinstance(live[j], ArgsNamespace) and live[j] in live[i]:
-                    ct.append([i + 1, j + 1])
-    refl = [i + 1 for i in range(n) if not (live[i] == live[i])]
-    # what users rely on: an equal object is found as a dict key / set member
+                if isinstance(live[j], ArgsNamespace):
+                    try:
+                        if live[j] in live[i]:
+                            ct.append([i + 1, j + 1])
+                    except Exception as e:  # noqa: BLE001
+                        err.append(["in", j + 1, i + 1, type(e).__name__, "RenderArgs.__contains__"])
+    refl = []
+    for i in range(n):
+        try:
+            if not (live[i] == live[i]):
+                refl.append(i + 1)
+        except Exception as e:  # noqa: BLE001
+            err.append(["==", i + 1, i + 1, type(e).__name__, _api(live[i], "__eq__")])
+    # what users rely on: an equal (hashable) object is found as a dict key / set member
     dmiss = []
     for i, j in eq:
+        if hashes[i - 1] is None or hashes[j - 1] is None:
+            continue
         for a, b in ((i, j), (j, i)):
             x, y = live[a - 1], live[b - 1]
             if y not in {x: None} or y not in {x} or len({x, y}) != 1:
                 dmiss.append([a, b])
-    return {"eq": eq, "heq": heq, "ct": ct, "asym": ne_asym, "nonrefl": refl, "dmiss": dmiss}
+    return {"eq": eq, "heq": heq, "ct": ct, "asym": ne_asym, "nonrefl": refl, "dmiss": dmiss,
+            "uh": uh, "err": err}
 
 
 # ---- namespace-class rules ------------------------------------------------------------
